@@ -317,6 +317,85 @@ func runDB(db *sql.DB, dq DrvQuery) (out *sqlOut) {
 	return out
 }
 
+// runOverlapped issues both queries before reading either result set, then reads the two
+// alternately row by row.
+func runOverlapped(db *sql.DB, a, b DrvQuery) (oa, ob *sqlOut) {
+	oa, ob = &sqlOut{}, &sqlOut{}
+	if p := guard(func() {
+		ra, ea := db.Query(string(a.Text), anyArgs(a.Args)...)
+		rb, eb := db.Query(string(b.Text), anyArgs(b.Args)...)
+		if ea != nil || eb != nil {
+			// fall back to plain reading: an error on either side leaves nothing to interleave
+			if ra != nil {
+				oa = readRows(ra, nil)
+			} else {
+				oa = &sqlOut{Err: ea.Error()}
+			}
+			if rb != nil {
+				ob = readRows(rb, nil)
+			} else {
+				ob = &sqlOut{Err: eb.Error()}
+			}
+			return
+		}
+		defer ra.Close()
+		defer rb.Close()
+		step := func(rows *sql.Rows, o *sqlOut) bool {
+			if o.Cols == nil {
+				o.Cols, _ = rows.Columns()
+				if cts, err := rows.ColumnTypes(); err == nil {
+					for _, ct := range cts {
+						o.Types = append(o.Types, ct.DatabaseTypeName())
+					}
+				}
+			}
+			if !rows.Next() {
+				if err := rows.Err(); err != nil {
+					o.Err = err.Error()
+				}
+				return false
+			}
+			vals := make([]any, len(o.Cols))
+			ptrs := make([]any, len(o.Cols))
+			for i := range vals {
+				ptrs[i] = &vals[i]
+			}
+			if err := rows.Scan(ptrs...); err != nil {
+				o.Err = "scan: " + err.Error()
+				return false
+			}
+			row := make([]string, len(vals))
+			for i, v := range vals {
+				switch x := v.(type) {
+				case string:
+					row[i] = x
+				case int64:
+					row[i] = fmt.Sprint(x)
+				case nil:
+					row[i] = "<NULL>"
+					o.BadTy = fmt.Sprintf("column %d is NULL", i)
+				default:
+					row[i] = fmt.Sprint(x)
+				}
+			}
+			o.Rows = append(o.Rows, row)
+			return true
+		}
+		ma, mb := true, true
+		for ma || mb {
+			if ma {
+				ma = step(ra, oa)
+			}
+			if mb {
+				mb = step(rb, ob)
+			}
+		}
+	}); p != "" {
+		oa, ob = &sqlOut{Panic: p}, &sqlOut{Panic: p}
+	}
+	return oa, ob
+}
+
 // compareSQL returns (signature, detail) or "".
 func compareSQL(w *sqlWant, o *sqlOut) (string, string) {
 	if o.Panic != "" {
@@ -393,6 +472,9 @@ type C12Case struct {
 	Data    Dataset    `json:"data"`
 	DSNOpts []string   `json:"dsn_opts"`
 	Queries []DrvQuery `json:"queries"`
+	// Overlap: consecutive pairs of queries are issued before either result set is read, and
+	// the two are then read alternately (nested iteration over two Rows of one handle)
+	Overlap bool `json:"overlap,omitempty"`
 }
 
 var dsnOptMenu = []string{"", "preload=true", "lrucache=true&lrucachesize=0", "lrucache=true&lrucachesize=300", "lrucache=true&lrucachesize=10000000", "lrucache=true&lrucachesize=18446744073709551615", "lrucache=true&lrucachesize=9223372036854775808",
@@ -411,6 +493,7 @@ func genC12(c *Ctx) any {
 		cs.DSNOpts = append(cs.DSNOpts, dsnOptMenu[r.Intn(len(dsnOptMenu))])
 	}
 	si := infoOf(cs.Data.Spec.Expand())
+	cs.Overlap = r.Chance(1, 4)
 	for i, n := 0, r.Range(4, 14); i < n; i++ {
 		q := &Query{Expr: GenExpr(r, si, r.Range(0, 3), ExprOpts{MaxArity: 3, UnknownCol: r.Chance(1, 8)})}
 		switch r.Intn(4) {
@@ -471,6 +554,19 @@ func runC12(c *Ctx, body json.RawMessage) *Verdict {
 			return v.Violate("open-error", "sql.Open(%q): %v", dsn, err)
 		}
 		invalidOpt := strings.Contains(opt, "lrucachesize=abc")
+		if cs.Overlap && !invalidOpt {
+			for qi := 0; qi+1 < len(cs.Queries); qi += 2 {
+				o1, o2 := runOverlapped(db, cs.Queries[qi], cs.Queries[qi+1])
+				for k, o := range []*sqlOut{o1, o2} {
+					dq := cs.Queries[qi+k]
+					if sig, d := compareSQL(wantFor(ref, dq), o); sig != "" {
+						db.Close()
+						return v.Violate(sig, "dsn options %q, query %d %q (result set open together with query %d's): %s", opt, qi+k, string(dq.Text), qi+1-k, d)
+					}
+				}
+				v.Count("probe_overlapping_result_sets", 1)
+			}
+		}
 		for qi, dq := range cs.Queries {
 			w := wantFor(ref, dq)
 			if invalidOpt {
